@@ -693,7 +693,12 @@ func (x *Exec) convertReal(r *RealV, to types.Type) Value {
 	}
 	if isIntT(to) {
 		// truncation towards zero: floor for a non-negative value, -floor(-v) for a negative one
-		if r.Sign > 0 {
+		if r.Sign > 0 || r.Err == nil {
+			if r.Err != nil {
+				// a fact, not an assumption: rounding to nearest keeps the sign, so the float value is non-negative
+				// although the real term with its error variables could dip below zero
+				x.path = append(x.path, x.ts.Cmp(ORLe, x.ts.Real(new(big.Rat)), r.T))
+			}
 			return x.ts.Int2BV(x.ts.Floor(r.T), intWidth(to))
 		}
 		z := x.ts.Real(new(big.Rat))
